@@ -51,6 +51,7 @@ type call struct {
 	CType  int    `json:"ctype,omitempty"` // builder.ChecksType value passed (1..5 valid)
 	Acts   []int  `json:"acts,omitempty"`  // labels of the Actions already in the Checks / Sequence; 0 = nil element
 	Gid    int    `json:"gid,omitempty"`   // reset/new: 0 no option, -1 WithGroupID(uuid.Nil), n>0 WithGroupID(id n)
+	Reuse  bool   `json:"reuse,omitempty"` // pass the SAME pointer an earlier call with this label created (aliasing); Acts = what it holds now
 	Why    string `json:"why,omitempty"`   // generator's reason for this call (misuse kind), for the histogram only
 }
 
@@ -230,7 +231,13 @@ func (r *runner) apply(b *builder.BuildPlan, c call) (ret error, plan *workflow.
 		return err, p
 	case "checks":
 		var k *workflow.Checks
-		if !c.Nil {
+		if c.Reuse {
+			for ptr, l := range r.chkLab {
+				if l == c.Lab {
+					k = ptr
+				}
+			}
+		} else if !c.Nil {
 			k = &workflow.Checks{Delay: time.Duration(c.Lab), Actions: r.actions(c.Acts)}
 			r.chkLab[k] = c.Lab
 		}
@@ -242,14 +249,26 @@ func (r *runner) apply(b *builder.BuildPlan, c call) (ret error, plan *workflow.
 		b.AddBlock(a)
 	case "seq":
 		var q *workflow.Sequence
-		if !c.Nil {
+		if c.Reuse {
+			for ptr, l := range r.seqLab {
+				if l == c.Lab {
+					q = ptr
+				}
+			}
+		} else if !c.Nil {
 			q = &workflow.Sequence{Name: c.Name.str(fmt.Sprintf("q%d", c.Lab)), Descr: c.Descr.str(fmt.Sprintf("qd%d", c.Lab)), Actions: r.actions(c.Acts)}
 			r.seqLab[q] = c.Lab
 		}
 		b.AddSequence(q)
 	case "action":
 		var a *workflow.Action
-		if !c.Nil {
+		if c.Reuse {
+			for ptr, l := range r.actLab {
+				if l == c.Lab {
+					a = ptr
+				}
+			}
+		} else if !c.Nil {
 			a = r.action(c.Lab, &c)
 		}
 		b.AddAction(a)
@@ -923,6 +942,53 @@ func exhaustive() (out []session, names []string) {
 			s.Calls = append(levels[lv](), plain(g.mkChecks(bad)), plan)
 			out, names = append(out, s), append(names, "badtype-x-level")
 		}
+	}
+	// the same pointer passed to two Add* calls: each call appends what it was given, so the emitted tree lists
+	// the object twice.  Labels go with the POINTER (the second call carries the first call's label, and as
+	// "Actions already in it" what the object holds at that moment); an aliased sequence / group is not given
+	// further actions through its second occurrence (that would show in both places: outside the model).
+	re := func(c call, acts ...int) call { c.Reuse = true; c.Acts = acts; return c }
+	for v := 0; v < 3; v++ {
+		mkS := func(f func() []call, name string) {
+			s := newS()
+			s.Calls = f()
+			out, names = append(out, s), append(names, "alias:"+name)
+		}
+		nA := v // actions added to the object before it is passed again
+		addN := func(n int) (cs []call, labs []int) {
+			for i := 0; i < n; i++ {
+				a := plain(g.mkAction())
+				cs, labs = append(cs, a), append(labs, a.Lab)
+			}
+			return
+		}
+		mkS(func() []call {
+			q := plain(g.mkSeq())
+			as, labs := addN(nA)
+			return append(append([]call{plain(g.mkBlock()), q}, as...), up, re(q, labs...), up, plain(g.mkSeq()), up, up, plan)
+		}, "sequence-twice-in-one-block")
+		mkS(func() []call {
+			q := plain(g.mkSeq())
+			as, labs := addN(nA)
+			return append(append([]call{plain(g.mkBlock()), q}, as...), up, up, plain(g.mkBlock()), re(q, labs...), up, up, plan)
+		}, "sequence-in-two-blocks")
+		mkS(func() []call {
+			a := plain(g.mkAction())
+			cs := []call{plain(g.mkBlock()), plain(g.mkSeq()), a}
+			for i := 0; i <= v; i++ {
+				cs = append(cs, re(a))
+			}
+			return append(cs, up, plain(g.mkSeq()), re(a), up, plain(g.mkChecks(1+v)), re(a), up, up, plan)
+		}, "action-twice-in-a-sequence-and-elsewhere")
+		mkS(func() []call {
+			k := plain(g.mkChecks(1 + v))
+			as, labs := addN(nA)
+			k2 := re(k, labs...)
+			k2.CType = 5 - v
+			k3 := re(k, labs...)
+			k3.CType = 2 + v
+			return append(append([]call{k}, as...), up, k2, up, plain(g.mkBlock()), k3, up, up, plan)
+		}, "checks-as-two-plan-groups-and-a-block-group")
 	}
 	// first misuse kind x second misuse kind: the second call is itself a misuse (incl. the nil argument of
 	// every Add* method) and meets a builder that already holds the first misuse's error
